@@ -143,9 +143,13 @@ theorem inv_step (fx : Fix) (w : World) (op : Op) (hI : Inv w) (hg : Good fx w o
       rw [if_pos (by rw [hc']; decide)]
       exact ⟨w, rfl, hI, Mono.refl w⟩
   | fillRec rn =>
+    show ∃ w', (if (fx.fillMode && w.indep) = true then some w else some _) = some w' ∧ _
+    by_cases hfm : (fx.fillMode && w.indep) = true
+    · rw [if_pos hfm]; exact ⟨w, rfl, hI, Mono.refl w⟩
+    rw [if_neg hfm]
     refine ⟨_, rfl, ?_⟩
     by_cases hc : w.indep = true
-    · -- the dispatcher loses NC_EINDEP: the fill runs in independent mode too
+    · -- (unrepaired dispatcher) NC_EINDEP is lost: the fill runs in independent mode too
       have hfm : w.ranks.filterMap (fun r => some (rn r.id + 1)) = w.ranks.map (fun r => rn r.id + 1) := by
         induction w.ranks with
         | nil => rfl
@@ -319,13 +323,13 @@ theorem numrecs_inv_counterexample_vard : ¬ numrecs_inv_Statement Fix.none :=
     { ranks := [{ id := 0, numrecs := 4 }, { id := 1, numrecs := 4 }], hdr := 4, hi := 0 } (by decide) rfl (by decide)
 
 /-- each of the three repairs is needed on its own: with the other two present the property still fails -/
-theorem numrecs_inv_needs_zeroPath : ¬ numrecs_inv_Statement { zeroPath := false, vardGuard := true, waitScan := true } :=
+theorem numrecs_inv_needs_zeroPath : ¬ numrecs_inv_Statement { Fix.all with zeroPath := false } :=
   deadlock_refutes _ (by decide)
-theorem numrecs_inv_needs_waitScan : ¬ numrecs_inv_Statement { zeroPath := true, vardGuard := true, waitScan := false } :=
+theorem numrecs_inv_needs_waitScan : ¬ numrecs_inv_Statement { Fix.all with waitScan := false } :=
   incoherent_refutes _ histPartialWait
     { ranks := [{ id := 0, numrecs := 0, pending := [{ id := 1, isRec := true, maxRec := 1, varBegin := 1, reqOff := 1 }], own := 6 },
                 { id := 1, numrecs := 0 }], hdr := 0, hi := 6 } (by decide) rfl (by decide)
-theorem numrecs_inv_needs_vardGuard : ¬ numrecs_inv_Statement { zeroPath := true, vardGuard := false, waitScan := true } :=
+theorem numrecs_inv_needs_vardGuard : ¬ numrecs_inv_Statement { Fix.all with vardGuard := false } :=
   incoherent_refutes _ histVard
     { ranks := [{ id := 0, numrecs := 4 }, { id := 1, numrecs := 4 }], hdr := 4, hi := 0 } (by decide) rfl (by decide)
 
